@@ -1033,7 +1033,8 @@ def suppress(ctx: Any) -> List[Ob]:
     obs: List[Ob] = []
     want = lf.parse_cmp('0 < K - T / 2')
     f = prog.func('zeroconf._dns.DNSRRSet.suppresses')
-    rets = [r.value for r in walk_local_ordered(f.node) if isinstance(r, ast.Return) and isinstance(r.value, ast.Compare)]
+    # the ordering comparison that a return evaluates (the whole value, or a conjunct of it: `other is not None and ...`)
+    rets = [x for r in walk_local_ordered(f.node) if isinstance(r, ast.Return) and r.value is not None for x in ast.walk(r.value) if isinstance(x, ast.Compare) and len(x.ops) == 1 and isinstance(x.ops[0], (ast.Lt, ast.LtE, ast.Gt, ast.GtE))]
     if len(rets) != 1:
         raise AnalysisError('anchor vanished: comparison returned by DNSRRSet.suppresses')
     rec = f.params[1]
